@@ -206,6 +206,7 @@ def linear_harness(cname, Dn, K, mode):
                 lc = loop_carried(HouseholderSequence._apply_transforms)
                 ctx.oblige("proof-side-condition", z3.BoolVal(len(lc) == 1 and lc[0][1] == ["outputs"]), label="C11.reflection-loop-carries-outputs-only",
                            loc=("contract", h.hid.split("[")[0], 0), meta={"loops": str(lc)})
+                ensure(h, ctx, "C13.no-write", z3.BoolVal(not [w for w in ctx.writes if w[0] != "fresh"]), meta={"writes": str([w for w in ctx.writes if w[0] != "fresh"][:3])})
                 for b in range(B):
                     ensure(h, ctx, "C01.logdet", P(ld)[b] == 0)
                     for i in range(Dn):
@@ -230,6 +231,7 @@ def linear_harness(cname, Dn, K, mode):
             # inverse(y) = y @ matrix(): with matrix()^T matrix() = I (accessors) and forward(x) = x @ matrix()^T this is the inverse of forward
             xi, ldi, Mt = value
             M = P(Mt)
+            ensure(h, ctx, "C13.no-write", z3.BoolVal(not [w for w in ctx.writes if w[0] != "fresh"]), meta={"writes": str([w for w in ctx.writes if w[0] != "fresh"][:3])})
             for b in range(B):
                 ensure(h, ctx, "C02.neg-logdet", P(ldi)[b] == 0)
                 for i in range(Dn):
